@@ -178,7 +178,7 @@ def purity_section(tier, seed):
     import corpus_values
     rng = random.Random(seed * 37 + 6)
     vals = corpus_values.corpus()
-    settings_list = [{}, {'width': 20}, {'width': 40, 'sort_dict_keys': True}] if tier == 'quick' else \
+    settings_list = [{}, {'width': 20}, {'width': 40, 'sort_dict_keys': True}, {'max_seq_len': 2}] if tier == 'quick' else \
         [{}, {'width': 20}, {'width': 40, 'sort_dict_keys': True}, {'width': 10, 'indent': 2}, {'depth': 2}, {'max_seq_len': 3}]
     mism, fails = [], []
     tot = nt = 0
